@@ -31,6 +31,12 @@ class Check:
         return len(case[2]) >= 3
     def prepare(self, ctx):
         return True, ''
+    def regen(self):
+        """further model inputs regenerated from the tree before the theorems are re-checked (T1)"""
+        return True, ''
+    def side_checks(self, tier, seed, ctx, proof_ok):
+        """further engines of this property: -> list of (replay file name, message, detail) for violations found; may add to ctx['cov_extra']"""
+        return []
 
     # ---- machinery
     def build(self, ctx):
@@ -62,9 +68,9 @@ class Check:
             return ('prop', 'implementation: ' + bad, None)
         if ctr == mtr: return ('ok', '', None)
         if self.project(header, ctr) != self.project(header, mtr):
-            i = first_diff(self.project(header, ctr), self.project(header, mtr))
-            return ('prop', 'property-relevant observable differs at op %d (%s): impl "%s" vs model "%s"' %
-                    (i, ops[i] if i < len(ops) else '?', get(ctr, i), get(mtr, i)), None)
+            pc, pm = self.project(header, ctr), self.project(header, mtr)
+            i = first_diff(pc, pm)
+            return ('prop', 'property-relevant observable #%d differs: impl "%s" vs model "%s"' % (i, get(pc, i), get(pm, i)), None)
         i = first_diff(ctr, mtr)
         return ('corr', 'trace differs at op %d (%s): impl "%s" vs model "%s"' %
                 (i, ops[i] if i < len(ops) else '?', get(ctr, i), get(mtr, i)), None)
@@ -144,6 +150,9 @@ class Check:
         proof_ok = True; proof_msg = ''
         ok, msg = regen_consts()
         if not ok: proof_ok = False; proof_msg = msg
+        if proof_ok:
+            ok, msg = self.regen()
+            if not ok: proof_ok = False; proof_msg = msg
         nthm = closed = 0
         if proof_ok:
             ok, nthm, closed, axioms, log = coq_props(self.props_file)
@@ -202,7 +211,13 @@ class Check:
             if kf['id'] in known_hits:
                 print('KNOWN-FINDING: %s' % kf['text'])
 
-        if prop_bad:
+        side = self.side_checks(tier, seed, ctx, proof_ok)
+        for name, msg, detail in side:
+            p = self.write_replay(name, None, None, None, 'VIOLATED: ' + msg,
+                                  detail + ('' if proof_ok else '\nproofs BROKEN: ' + proof_msg))
+            violations.append((p, ''))
+        if side: pass
+        elif prop_bad:
             case, k = prop_bad[0]
             small = self.shrink(case, ctx, 'prop')
             cc, mm = self.run_both([small], ctx, 'final')
